@@ -212,9 +212,12 @@ func (p *Parser) number() (Number, error) {
 
 // More checks if the parser has more tokens to read.
 func (p *Parser) More() bool {
-	if _, err := p.next(); err != nil {
+	if _, err := p.next(); err != nil && p.lexer.buf.Len() == p.lexer.offset {
+		// Nothing but layout text was left.
 		return false
 	}
+	// Either a token, or the beginning of one that is cut short or invalid: that is not the end of the text,
+	// and the next Term() reports it.
 	p.backup()
 	return true
 }
